@@ -24,7 +24,7 @@ RULE = (
     "shape} x seeds 0..5 x test sizes. SplineCV: every permutation of the damping grid {1e-4, 1e-1, 1e2} x mindists x cv x delayed "
     "(explorer installed as the dask scheduler, every task order / bounded interleavings). Non-trivial: the three wrong alternatives "
     "(scored on train rows, fitted on all rows, unweighted) differ from the right score by > 1e-3."
-    " Added axes: mixed-layout 2-D input, permuted-index Series, dataset at UTM offsets, a cross-validator with train != complement(test), environment-driven client (deviation bound 1 / 2), caller reconfiguring the estimator between graph construction and computation, line-granular interleavings over every line of the library (bound 1 quick; bound 2 and Vector / Chain / three tasks thorough)."
+    " Added axes: mixed-layout 2-D input, permuted-index Series, dataset at UTM offsets, a cross-validator with train != complement(test), a splitter whose draws differ from call to call (scores must come from one draw), environment-driven client (deviation bound 1 / 2), caller reconfiguring the estimator between graph construction and computation, line-granular interleavings over every line of the library (bound 1 quick; bound 2 and Vector / Chain / three tasks thorough)."
 )
 ASSUMPTIONS = ["scikit-learn's public metric functions are the metric oracle; the cv object's own split() provides the splits",
                "interleavings are explored at method boundaries of the estimator (fit / score) under the GIL; a real distributed client is replaced "
@@ -51,6 +51,8 @@ def cases(tier, seed):
         for est in EST:
             for w in (False, True):
                 yield dict(kind="score", ds=ds, est=est, w=w)
+                # a splitter whose draws differ from call to call: every score must pair the training and the test rows of ONE draw
+                yield dict(kind="cvs", ds=ds, est=est, w=w, cv="stateful", scoring=0, mode="serial")
         # 2-D gridded input whose arrays do not share one memory layout (C-ordered coordinates, Fortran-ordered data, transposed
         # weights): the row selection must follow the logical (C) order of every array. Added after seed C12-2.
         for est in EST:
@@ -206,10 +208,30 @@ def _reconfigure(est, key):
         raise ValueError(key)
 
 
+class StatefulCV:
+    """A splitter that is NOT reproducible across calls (like any scikit-learn splitter given a RandomState instance or None): the k-th call
+    of split() draws ShuffleSplit(random_state=100 + k).  frozen=k always replays draw k (for the reference).  Round 8, seed C12-16."""
+
+    def __init__(self, frozen=None):
+        self.calls, self.frozen = 0, frozen
+
+    def get_n_splits(self, X=None, y=None, groups=None):
+        return 2
+
+    def split(self, X, y=None, groups=None):
+        from sklearn.model_selection import ShuffleSplit
+
+        k = self.frozen if self.frozen is not None else self.calls
+        self.calls += 1
+        yield from ShuffleSplit(n_splits=2, test_size=0.3, random_state=100 + k).split(X)
+
+
 def make_cv(key):
     import verde as vd
     from sklearn.model_selection import KFold, ShuffleSplit
 
+    if key == "stateful":
+        return StatefulCV()
     if key == "default":
         return None
     if key == "kfold2":
@@ -432,7 +454,15 @@ def run(case, rec):
             if raised(got):
                 return rec.check(False, "cross_val_score raised %r" % (got,))
             rec.check(isinstance(got, np.ndarray), "serial cross_val_score must return an array")
-            check_scores(got, "serial")
+            if cvkey == "stateful":
+                # the reference above replayed draw 0; accept the scores of ANY single draw the call may have consumed (0 .. 3)
+                refs = [reference_scores(key, (e, n), data, wts, StatefulCV(frozen=k), si, e.size)["right"] for k in range(4)]
+                gotv = np.asarray(got, dtype=float)
+                rec.check(gotv.shape == (2,) and any(np.max(np.abs(gotv - r)) <= 1e-10 for r in refs),
+                          "cross_val_score with a splitter that draws anew on every call: scores %s are not those of the splits of any single draw %s "
+                          "(training rows of one draw paired with test rows of another?)" % (gotv.tolist(), [r.tolist() for r in refs]))
+            else:
+                check_scores(got, "serial")
             rec.check((repr(est.get_params()), _fitted_attrs(est)) == before, "the estimator passed in was modified: %r -> %r" % (before, (repr(est.get_params()), _fitted_attrs(est))))
             if vec:
                 rec.check(all(not _fitted_attrs(c) for c in est.components), "components of the Vector passed in were fitted")
